@@ -36,7 +36,7 @@ SORTS = [
 
 
 def census():
-    root = "/repo/src/adaptix"
+    root = os.path.join(os.environ.get("VERIF_REPO", "/repo"), "src", "adaptix")
     rows, unknown = [], []
     for p in sorted(glob.glob(root + "/**/*.py", recursive=True)):
         src = open(p).read()
